@@ -96,6 +96,11 @@ def gen_module(rng, tier="quick"):
                     ops.append(copy.deepcopy(rng.choice(ops)))           # repeated operand (parity gates cancel pairs)
                 else:
                     ops.append(vu.cid(rng.choice(leaves)))
+            if g in ("xor", "xnor") and rng.random() < 0.3:
+                # an operand three or five times (parity: it survives once), possibly next to others
+                rep = vu.cid(rng.choice(leaves))
+                ops = [copy.deepcopy(rep) for _ in range(rng.choice([3, 3, 5]))] + ops[:rng.choice([0, 1, 2])]
+                rng.shuffle(ops)
             inst_k[0] += 1
             stmts.append(["inst", g, [[f"g{inst_k[0]}", ["pos", [vu.cid(n)] + ops]]]])
         driven.append(n)
